@@ -86,8 +86,6 @@ func xCmp(a, b xnum) int {
 }
 
 var (
-	bigTen   = big.NewInt(10)
-	ratZero  = new(big.Rat)
 	maxInt64 = new(big.Int).SetInt64(int64(^uint64(0) >> 1))
 	minInt64 = new(big.Int).Neg(new(big.Int).Add(maxInt64, big.NewInt(1)))
 	// largest finite decimal .9999999999999999e127 and the overflow threshold 1e127
@@ -96,13 +94,7 @@ var (
 	decMinPos = gen.Pow10Rat(-129)
 )
 
-func pow10Int(e int) *big.Int {
-	return new(big.Int).Exp(bigTen, big.NewInt(int64(e)), nil)
-}
-
 func ratAbs(r *big.Rat) *big.Rat { return new(big.Rat).Abs(r) }
-
-func fitsInt64(n *big.Int) bool { return n.IsInt64() }
 
 // decExp returns the normalised decimal exponent E of r != 0:
 // 10^(E-1) <= |r| < 10^E (the value is .d1d2... * 10^E).
@@ -136,7 +128,7 @@ func sigDigits(n *big.Int) int {
 }
 
 // ratSigDigits: significant digits of a rational with a terminating decimal
-// expansion; -1 if the expansion does not terminate within 60 digits.
+// expansion; -1 if the expansion does not terminate within 200 digits.
 func ratSigDigits(r *big.Rat) int {
 	if r.Sign() == 0 {
 		return 0
@@ -178,10 +170,10 @@ func dec16(r *big.Rat) []*big.Rat {
 // result. It returns the exact result, the error in units of the allowed
 // tolerance (<= 1 is acceptable) and a verdict.
 //
-//	+ -  : |got-exact| <= one unit of the 16th digit of the largest of |x|,|y|,|exact|
-//	* /  : |got-exact| <= one unit of the 16th digit of |exact|
-//	exact overflow (>= 1e127 within tolerance) -> ±inf; results below the
-//	smallest decimal 1e-129 -> 0 (or the smallest decimal)
+//   - -  : |got-exact| <= one unit of the 16th digit of the largest of |x|,|y|,|exact|
+//   - /  : |got-exact| <= one unit of the 16th digit of |exact|
+//     exact overflow (>= 1e127 within tolerance) -> ±inf; results below the
+//     smallest decimal 1e-129 -> 0 (or the smallest decimal)
 type decVerdict struct {
 	ok    bool
 	exact *big.Rat
